@@ -62,6 +62,12 @@ CLAIMS = {
             'envelope error, keep its segment/element structure whatever hostile value is echoed, select the 997/999 map in the real index and be accepted by the real validator.',
             'Trusted: CrossHair, z3, the envelope recount. One listed known finding (control numbers that contain the acknowledgement delimiters).',
             'DESIGN.md §5 C06'),
+    'C08': ('other', 'bounded symbolic execution (CrossHair+z3) of XMLWriter escaping, x12xml_simple.seg loop bookkeeping on real map nodes and the XML round trip',
+            'Escaping is checked on every string of <= 3 (5) characters; seg() is run for every ordered pair (and every two-call sequence on one renderer) of representative real map nodes '
+            'from the invariant "stack spells path(previous)": it must render exactly the difference of the two map paths, label every element with its reference designator and convert back; '
+            'real valid documents with injected hostile values must survive X12 -> XML -> X12.',
+            'Trusted: CrossHair, z3, expat, the path-difference reference. Node pairs limited to a representative set of the 837P 4010 / 997 (835) maps.',
+            'DESIGN.md §5 C08'),
 }
 
 NOT_YET = 'check not built yet in this round (planned: see DESIGN.md §5)'
